@@ -7,6 +7,7 @@ M3  reference model: plain (signal, noise) array pair with numpy broadcasting, r
 import itertools
 
 import icontract
+import warnings
 import numpy as np
 
 from .. import core
@@ -664,19 +665,35 @@ def w_ctor_dtypes(ctx, rng, i):
 
 
 def w_ctor_rejects(ctx, rng, i):
+    """data from which no contract-satisfying object can be built in an obvious way: the statement says an object ALWAYS satisfies the
+    contract, not that such data is rejected with a particular exception — so the constructor may raise (ValueError / TypeError) or
+    return an object that satisfies the contract (e.g. by squeezing a (1, 1, n) array); what it may not do is return one that does not."""
     n = int(rng.integers(2, 6))
+
+    def rejected_or_valid(cls, *a):
+        before = [core._arg_state(v) for v in a]
+        try:
+            with warnings.catch_warnings():
+                warnings.simplefilter("ignore")
+                o = cls(*a)
+        except (ValueError, TypeError) as e:
+            ctx.bin("ctor.rejects.outcome", type(e).__name__)
+            ctx.check("ctor.rejects", [core._arg_state(v) for v in a] == before, f"{cls.__name__}{tuple(np.shape(v) for v in a)}: the rejected call modified its arguments")
+            return
+        ctx.bin("ctor.rejects.outcome", "object returned")
+        ctx.check("ctor.rejects", contract_of(o) is None, f"{cls.__name__}{tuple(np.shape(v) for v in a)} returned an object that violates the contract: {contract_of(o)}")
     with core.quiet():
-        ctx.raises("ctor.rejects", ValueError, T.electrical_signal, np.zeros((2, n)))
-        ctx.raises("ctor.rejects", ValueError, T.electrical_signal, [])
-        ctx.raises("ctor.rejects", ValueError, T.electrical_signal, np.zeros((1, 1, n)))
-        ctx.raises("ctor.rejects", ValueError, T.electrical_signal, np.zeros(n), np.zeros(n + 1))
-        ctx.raises("ctor.rejects", ValueError, T.electrical_signal, np.zeros(n), 1.0)
-        ctx.raises("ctor.rejects", ValueError, T.optical_signal, np.zeros((3, n)))
-        ctx.raises("ctor.rejects", ValueError, T.optical_signal, np.zeros((2, 2, n)))
-        ctx.raises("ctor.rejects", ValueError, T.optical_signal, [])
-        ctx.raises("ctor.rejects", ValueError, T.optical_signal, np.zeros((2, 0)))
-        ctx.raises("ctor.rejects", ValueError, T.optical_signal, np.zeros((2, n)), np.zeros(n))
-        ctx.raises("ctor.rejects", ValueError, T.optical_signal, np.zeros(n), np.zeros(n - 1))
+        rejected_or_valid(T.electrical_signal, np.zeros((2, n)))
+        rejected_or_valid(T.electrical_signal, [])
+        rejected_or_valid(T.electrical_signal, np.zeros((1, 1, n)))
+        rejected_or_valid(T.electrical_signal, np.zeros(n), np.zeros(n + 1))
+        rejected_or_valid(T.electrical_signal, np.zeros(n), 1.0)
+        rejected_or_valid(T.optical_signal, np.zeros((3, n)))
+        rejected_or_valid(T.optical_signal, np.zeros((2, 2, n)))
+        rejected_or_valid(T.optical_signal, [])
+        rejected_or_valid(T.optical_signal, np.zeros((2, 0)))
+        rejected_or_valid(T.optical_signal, np.zeros((2, n)), np.zeros(n))
+        rejected_or_valid(T.optical_signal, np.zeros(n), np.zeros(n - 1))
     ctx.case(("rej", n))
 
 
